@@ -125,6 +125,21 @@ func main() {
 			}(id, gap, order, r.Intn(30))
 		}
 	}
+	// a quiet host: no other login while the halves wait (a cut-off that is refreshed by traffic only is a minute too
+	// old here)
+	for _, gap := range []int{125, 170} {
+		for _, order := range []string{"record-first", "login-first"} {
+			id++
+			wg.Add(1)
+			go func(id, gap int, order string, delay int) {
+				defer wg.Done()
+				rc := run(id, gap, order, delay, false)
+				mu.Lock()
+				recs = append(recs, rc)
+				mu.Unlock()
+			}(id, gap, order, r.Intn(30))
+		}
+	}
 	wg.Wait()
 	fo, err := os.Create(*out)
 	if err != nil {
